@@ -62,6 +62,17 @@ class Editor:
             return bytes(head)
         self.count[d] += 1
         idx = self.count[d]
+        if getattr(self, 'glue', False) and d == self.d and not self.applied and self.fault is not None and idx == self.i - 1 \
+                and len(q) >= 2 and q[1] is not EOF:
+            # the altered packet reaches the receiver in one chunk with the packet before it (one TCP segment): the
+            # receiver may still be busy with that one (handlers of key exchange packets are coroutines)
+            first = q.popleft()
+            self.history[d].append(bytes(first))
+            self.types_before.append(first.label)
+            if first.label in (94, 95):
+                self.data_before += 1
+            self.glued = True
+            return bytes(first) + self.next(d, q)
         if d != self.d or self.applied or self.fault is None or idx != self.i:
             q.popleft()
             self.history[d].append(bytes(head))
@@ -116,7 +127,7 @@ class Editor:
         raise ValueError(self.fault)
 
 
-def run(cfg, d, i, fault, seed=0, editor=None):
+def run(cfg, d, i, fault, seed=0, editor=None, glue=False):
     cipher, mac, comp = cfg[:3]
     rekey = len(cfg) > 3
     loop = P.fresh(seed)
@@ -132,11 +143,16 @@ def run(cfg, d, i, fault, seed=0, editor=None):
     algs = dict(encryption_algs=[cipher], compression_algs=[comp])
     if mac:
         algs['mac_algs'] = [mac]
+    calgs = dict(algs)
     if rekey:
         algs['rekey_bytes'] = 150       # a re-exchange (by either side) happens among the data packets
+        if cfg[3] != 'rekey-s':
+            calgs['rekey_bytes'] = 150  # 'rekey-s': only the server has a limit, so it starts every re-exchange
+                                        # and the client answers with KEXINIT and its next kex packet back to back
     try:
-        pair = P.Pair(loop, sopts=dict(encoding=None, **algs), copts=algs, env=env)
+        pair = P.Pair(loop, sopts=dict(encoding=None, **algs), copts=calgs, env=env)
         ed = editor or Editor(d, i, fault)
+        ed.glue = glue
         csess = {}
         task = None
 
@@ -260,7 +276,7 @@ def worker(job):
     acc = core.Acc()
     cipher, mac, comp = cfg[:3]
     bs = max(8, get_encryption_params(cipher.encode())[2])
-    name = '%s/%s/%s' % cfg[:3] + ('/rekey' if len(cfg) > 3 else '')
+    name = '%s/%s/%s' % cfg[:3] + ('/' + cfg[3] if len(cfg) > 3 else '')
     try:
         base = run(cfg, 'cs', 0, None)
     except Exception as exc:        # pylint: disable=broad-except
@@ -290,21 +306,22 @@ def worker(job):
             lab, ln = layout[i]
             macsize = 16
             fl = faults_for(ln, bs, macsize, tier if (tier == 'quick' or i in data_idx[:2] + data_idx[-2:]) else 'quick')
-            for fault in fl:
+            glues = (False, True) if len(cfg) > 3 and i > 0 else (False,)
+            for fault, glue in [(f_, g_) for f_ in fl for g_ in glues]:
                 try:
-                    obs = run(cfg, d, i, fault)
+                    obs = run(cfg, d, i, fault, glue=glue)
                     viol = judge(cfg, d, i, fault, obs)
                     out = (obs['srv_exc'], obs['cli_exc'], len(obs['srv_data']), len(obs['cli_data']))
                 except Livelock as exc:
                     viol, out = [('livelock', str(exc))], 'livelock'
-                acc.add(core.digest((cfg, d, i, fault, out)), transitions=1,
+                acc.add(core.digest((cfg, d, i, fault, glue, out)), transitions=1,
                         sample={'config': name, 'direction': d, 'packet': i, 'fault': fault,
                                 'receiver_error': out[0] if d == 'cs' else out[1]} if fault[0] == 'swap' and i else None)
                 acc.count('recv-outcome:%s' % (out[0] if d == 'cs' else out[1] if out != 'livelock' else out))
                 for k, det in viol:
                     acc.violation('tamper:%s:%s:%s:%s' % (k, name, d, fault[0]),
                                   '%s; packet %d (type %s, %d bytes) fault %r' % (det, i, lab, ln, fault),
-                                  {'cfg': list(cfg), 'd': d, 'i': i, 'fault': list(fault), 'kind': 'fault'})
+                                  {'cfg': list(cfg), 'd': d, 'i': i, 'fault': list(fault), 'kind': 'fault', 'glue': glue})
     return acc
 
 
@@ -630,6 +647,7 @@ def main(tier, seed):
     rk = [c + ('rekey',) for c in cfgs if c[2] == 'none' and (tier == 'thorough' or c[1] in (None, 'hmac-sha2-256', 'hmac-sha1-etm@openssh.com'))]
     if tier == 'quick':
         rk = [c for c in rk if c[0] in ('chacha20-poly1305@openssh.com', 'aes256-gcm@openssh.com', 'aes128-ctr', 'aes192-cbc')]
+    rk += [c[:3] + ('rekey-s',) for c in rk if tier == 'thorough' or c[1] in (None, 'hmac-sha2-256')]
     acc = core.pmap(worker, core.rotate([(c, tier) for c in cfgs + rk], seed), chunksize=2)
     scfgs = [c for c in cfgs if c[2] == 'none' and (tier == 'thorough' or c[1] in (None, 'hmac-sha2-256', 'hmac-sha2-256-etm@openssh.com', 'umac-64@openssh.com'))]
     if tier == 'quick':
@@ -673,7 +691,7 @@ def replay(rep):
             print('VIOLATION property=%s replay=(given)' % PROP)
         return 1 if v else 0
     fault = tuple(r['fault'])
-    obs = run(cfg, r['d'], r['i'], fault)
+    obs = run(cfg, r['d'], r['i'], fault, glue=r.get('glue', False))
     v = judge(cfg, r['d'], r['i'], fault, obs)
     obs.pop('c_msgs')
     obs.pop('s_msgs')
